@@ -139,6 +139,7 @@ Inductive fpred := FEquiv (c : tconst) | FValue (t : ttype) (a : vatom) | FConst
 Inductive pred :=
 | PLevelEq (l : level)                (* level(Level) *)
 | PLevelMax (o : option level)        (* level(LevelFilter); None = OFF *)
+| PLevelAtom (a : latom)              (* level([atom]) *)
 | PTarget (prefix : string)           (* target(&str) *)
 | PTargetAtom (a : satom)             (* target([atom]) *)
 | PName (a : satom)                   (* name(atom); spans only *)
@@ -224,6 +225,7 @@ Fixpoint eval (p : pred) (x : item) {struct p} : bool :=
   match p with
   | PLevelEq l => latom_eval (LAEq l) (it_level x)
   | PLevelMax o => latom_eval (level_filter_atom o) (it_level x)
+  | PLevelAtom a => latom_eval a (it_level x)
   | PTarget prefix => target_str_eval prefix (it_target x)
   | PTargetAtom a => satom_eval a (it_target x)
   | PName a => satom_eval a (it_name x)
@@ -294,6 +296,7 @@ Section FindCase.
     match p with
     | PLevelEq l => wrap_child (lcase expected (LAEq l) (it_level x))
     | PLevelMax o => wrap_child (lcase expected (level_filter_atom o) (it_level x))
+    | PLevelAtom a => wrap_child (lcase expected a (it_level x))
     | PTarget prefix =>
         wrap_child (case_if_eval (target_str_eval prefix (it_target x)) expected)
     | PTargetAtom a => wrap_child (scase expected a (it_target x))
@@ -413,6 +416,7 @@ Fixpoint denote (p : pred) (x : item) {struct p} : bool :=
   match p with
   | PLevelEq l => level_eqb (it_level x) l
   | PLevelMax o => verbosity (it_level x) <=? filter_verbosity o
+  | PLevelAtom a => latom_eval a (it_level x)
   | PTarget path => target_under path (it_target x)
   | PTargetAtom a => satom_eval a (it_target x)
   | PName a => satom_eval a (it_name x)
